@@ -1,9 +1,9 @@
 #!/bin/sh
 # usage: seedtest.sh <patch.diff> <Cxx> [Cyy ...]  - apply a seeded change to /repo, run the quick checks, undo
-P=$1; shift
+P=$(readlink -f "$1"); shift
 git -C /repo apply "$P" || { echo "patch does not apply"; exit 3; }
 for c in "$@"; do
   /verif/check $c quick > /tmp/seedtest.$c.out 2>&1; rc=$?
   echo "== $c exit=$rc"; grep -E "VIOLATED|UNDECIDED|VIOLATION|CHECK-BROKEN" -A1 /tmp/seedtest.$c.out | cut -c1-300 | head -20
 done
-git -C /repo checkout -- . ; git -C /repo status --short
+git -C /repo checkout -- . ; git -C /repo clean -fdq ; git -C /repo status --short
